@@ -38,6 +38,9 @@ func (c *C18) Run(x *engine.Ctx) *engine.Violation {
 	if x.Run%10 == 9 {
 		return c.concurrentCallers(x) // World L: interleaved histories on separate trees
 	}
+	if x.Run%64 == 21 {
+		return c.longHistory(x) // one tree, thousands of updates: whatever the tree allocates, grows or recycles gets exercised
+	}
 	var depth int
 	switch t.Weighted(6, 2, 2) {
 	case 0:
@@ -282,4 +285,68 @@ func bucket(n int) int {
 	default:
 		return 50
 	}
+}
+
+// longHistory: "after ANY sequence of leaf updates" includes long ones. One tree takes thousands of updates
+// (40 000..100 000 node writes in all, whatever the depth) on a working set of at most 48 leaves - first, last
+// and scattered indices, overwritten again and again, zero now and then. Every update's path is checked against
+// the tree's own roots before and after (so a lost or half-applied update shows at once); the independent model
+// recomputes the root every 61 updates and at the end.
+func (c *C18) longHistory(x *engine.Ctx) *engine.Violation {
+	t := x.T
+	depth := t.Range(1, 32)
+	size := uint64(1) << uint(depth)
+	var ws []uint64
+	for i := 0; i < 48; i++ {
+		var idx uint64
+		switch t.Draw(4) {
+		case 0:
+			idx = uint64(t.Draw(6)) % size
+		case 1:
+			idx = size - 1 - uint64(t.Draw(6))%size
+		default:
+			idx = (uint64(t.U32())<<16 ^ uint64(t.U32())) % size
+		}
+		ws = append(ws, idx)
+	}
+	writes := t.Range(40000, 100000)
+	n := writes / (depth + 1)
+	real := poseidon_tree.NewTree(depth)
+	model := oracle.NewTree(depth)
+	x.S.Count("probe:long_history_runs")
+	x.Log.Addf("seq", "long", "depth=%d n=%d", depth, n)
+	for step := 0; step < n; step++ {
+		idx := ws[t.Pick(len(ws))]
+		val := t.BigBelow(oracle.R)
+		if t.Chance(1, 8) {
+			val = big.NewInt(0)
+		}
+		prevVal := model.Get(idx)
+		before := real.Root()
+		prevRoot := new(big.Int).Set(&before)
+		path := real.Update(int(idx), *val)
+		model.Set(idx, val)
+		x.S.Eval(1)
+		if len(path) != depth {
+			return engine.Violatef("C18/path-length", "long history, depth %d step %d: path has %d entries", depth, step, len(path))
+		}
+		pp := make([]*big.Int, depth)
+		for i := range path {
+			pp[i] = new(big.Int).Set(&path[i])
+		}
+		after := real.Root()
+		if oracle.MerkleRoot(prevVal, idx, pp).Cmp(prevRoot) != 0 {
+			return engine.Violatef("C18/path-does-not-authenticate-previous-value", "long history, depth %d, update %d of %d, idx %d: returned path with the previous value does not give the previous root", depth, step, n, idx)
+		}
+		if oracle.MerkleRoot(val, idx, pp).Cmp(&after) != 0 {
+			return engine.Violatef("C18/path-does-not-authenticate-new-value", "long history, depth %d, update %d of %d, idx %d: returned path with the new value does not give the root the tree reports afterwards", depth, step, n, idx)
+		}
+		if step%61 == 60 || step == n-1 {
+			if want := model.Root(); after.Cmp(want) != 0 {
+				return engine.Violatef("C18/root-differs-from-recomputation", "long history, depth %d, after update %d of %d: tree root %s, recomputed from the leaves %s", depth, step, n, after.Text(16), want.Text(16))
+			}
+		}
+	}
+	x.S.Seen(fmt.Sprintf("long/d%d/n%d", depth, n/1000))
+	return nil
 }
